@@ -2,6 +2,7 @@ package eval
 
 import (
 	"bufio"
+	"bytes"
 	"encoding/json"
 	"fmt"
 	"io"
@@ -86,18 +87,14 @@ func readBytes(fm *Frame, max int) (string, error) {
 		return "", errs.BadValue{What: "max", Valid: "non-negative number", Actual: strconv.Itoa(max)}
 	}
 	in := fm.InputFile()
-	buf := make([]byte, max)
-	read := 0
-	for read < max {
-		n, err := in.Read(buf[read:])
-		read += n
-		if err == io.EOF {
-			break
-		} else if err != nil {
-			return "", err
-		}
+	// Grow the buffer as bytes arrive instead of allocating max bytes up front,
+	// since max can be arbitrarily large.
+	var buf bytes.Buffer
+	_, err := io.CopyN(&buf, in, int64(max))
+	if err != nil && err != io.EOF {
+		return "", err
 	}
-	return string(buf[:read]), nil
+	return buf.String(), nil
 }
 
 func readUpto(fm *Frame, terminator string) (string, error) {
